@@ -4,7 +4,6 @@ From Coq Require Import QArith Qround Qminmax.
 From AV Require Import Base Gen_session Cost.
 Local Open Scope Q_scope.
 
-Definition qmin (a b : Q) : Q := if Qle_bool a b then a else b.
 
 (* cap = min(current + max(3, current * 0.1), 250) *)
 Definition cap_of (current : Z) : Q :=
@@ -38,3 +37,10 @@ Definition c20_ok (x : Z * Q * Q * Z) : bool :=
   let t := clamp current trt avg in
   (obs =? round_half_up t)%Z || (obs =? round_half_up (t - (1 # 1000000000) * (1 + t)))%Z
   || (obs =? round_half_up (t + (1 # 1000000000) * (1 + t)))%Z.
+
+(* ---------- the arithmetic as regenerated from the source (see model/Cost.v: aexp, aeval) ---------- *)
+Definition renv (current : Z) (trt avg cap floor target : Q) (v : avar) : Q :=
+  match v with
+  | VCurrent => inject_Z current | VTrt => trt | VAvg => avg | VCap => cap | VFloor => floor | VTarget => target
+  | _ => 0
+  end.
